@@ -1,7 +1,7 @@
 HOOK_COMMITS = ["9db45bf"]
 ENGINES = [
     {"name": "evalsrv+python-monitors", "path": "/verif/harness/src/bin/evalsrv.rs + /verif/driver",
-     "serves_properties": ["C01", "C03", "C05", "C06", "C08", "C10", "C11", "C17", "C18", "C19", "C20"], "kind_free_text": "batch evaluation server over the public rsjsonnet API (Program/Session/Lexer/Parser/SpanManager) observed by Python oracles (reference models, independent decoders, metamorphic relations)"},
+     "serves_properties": ["C01", "C03", "C05", "C06", "C08", "C10", "C11", "C14", "C15", "C16", "C17", "C18", "C19", "C20"], "kind_free_text": "batch evaluation server over the public rsjsonnet API (Program/Session/Lexer/Parser/SpanManager) observed by Python oracles (reference models, independent decoders, metamorphic relations)"},
     {"name": "gcheap", "path": "/verif/harness/src/bin/gcheap.rs",
      "serves_properties": ["C03"], "kind_free_text": "scripted-heap driver over the real collector (hook 2) with a reference reachability model; exhaustive small scope + random large scope; also run under Miri"},
 ]
@@ -78,5 +78,23 @@ CHECKS = {
         "text": "Exploration with exhaustive sub-spaces (all permutations of five 4-request pools built around failure-then-reuse shapes): every response on the shared state equals the fresh-state response (value walk, manifest text, error kind/message/in-source spans, stack length), re-evaluating a thunk repeats its first outcome, and every history replays byte-identically in a second process.",
         "note": _BASE_NOTE + " std.trace output is excluded (memoised values are rightly not traced again); a value obtained where the fresh state reports StackOverflow because earlier requests memoised the work is not counted as a changed answer.",
         "design_ref": "DESIGN.md section 2 C11",
+    },
+    "C14": {
+        "technique": "runtime monitoring: tiling/EOF/filter invariants on the token stream of every input + differential oracle (independent reference lexer written from the lexical grammar: kinds, extents, decoded payloads, lossy UTF-8)",
+        "text": "Exploration with exhaustive sub-spaces (all pairs and triples of the 15 operator characters in 5 contexts; every BMP scalar value in thorough + 2000 astral in 8 string/comment forms; every class of invalid 1-3 byte UTF-8 prefix in 7 forms): token spans tile the input up to an EOF token, the filtered list equals the full list minus whitespace/comments, failures carry exactly one in-range location, and every token equals the reference lexer's.",
+        "note": _BASE_NOTE + " Text blocks containing CR are only checked for tiling (not modelled by the reference).",
+        "design_ref": "DESIGN.md section 2 C14",
+    },
+    "C15": {
+        "technique": "runtime monitoring: print/re-parse round trip of generated syntax trees in three parenthesisation styles against the generator's own tree and byte extents; operator-table oracle (independent precedence climbing); token-mutation error-location monitor",
+        "text": "Exploration with exhaustive sub-spaces (all ordered pairs, and in thorough all triples, of the 19 binary operators, plain and with unary/postfix operands): minimal, fully parenthesised and noisy printings parse to the same tree as generated, node spans equal the printed extents, lie inside their parents and on token boundaries; syntax errors of token-level mutants point at a token; every ui-tests file re-prints to an equal tree.",
+        "note": _BASE_NOTE + " The printer's precedence table is my reading of the specification.",
+        "design_ref": "DESIGN.md section 2 C15",
+    },
+    "C16": {
+        "technique": "runtime monitoring: span-in-source monitor on every structured error and stack-trace item; rendered-report checker (Session plain/coloured x max_trace) against line/column computed from the span; in-process SpanManager round-trip monitor with a reference table",
+        "text": "Exploration: 70+ failing templates x paddings (CRLF, tabs, multi-byte, invalid UTF-8, 10^5-column lines) and corpus mutants covering ~60 error kinds: all spans inside their source, reports render with an error header, right file/line/(ASCII) column, consistent cropping arithmetic, colour-stripped == plain; 10^6-10^8 span registrations over contexts up to 2^40 bytes round-trip unchanged.",
+        "note": _BASE_NOTE + " One open known finding (sourceannot assertion on zero-width spans). Columns compared only where display width equals byte offset.",
+        "design_ref": "DESIGN.md section 2 C16",
     },
 }
